@@ -58,6 +58,9 @@ var (
 	pgIntType = reflect.TypeOf(sdkmath.Int{})
 )
 
+// drawModeFields is switched on by the C18 parameter profile only.
+var drawModeFields = false
+
 type paramLeaf struct {
 	path string
 	v    reflect.Value
@@ -65,6 +68,12 @@ type paramLeaf struct {
 
 // names of fields that are bookkeeping state kept inside a Params object, not settings
 var paramStateFields = map[string]bool{"TotalValue": true, "InterestRate": true, "RedemptionRate": true, "TotalCommitted": true}
+
+// paramModeFields: feature switches that replace a DEFINITION some listed property is stated in (with
+// EnableTakeProfitCustodyLiabilities the accounted balance is by design reserve + L - C + take-profit custody -
+// take-profit liabilities, not C11's formula). They are drawn only where no property depends on the definition
+// (block processing must survive them, replicas must agree under them: C18, C19).
+var paramModeFields = map[string]bool{"EnableTakeProfitCustodyLiabilities": true}
 
 func collectLeaves(v reflect.Value, path string, depth int, out *[]paramLeaf) {
 	if depth > 4 {
@@ -85,7 +94,7 @@ func collectLeaves(v reflect.Value, path string, depth int, out *[]paramLeaf) {
 	case reflect.Struct:
 		for i := 0; i < v.NumField(); i++ {
 			f := v.Type().Field(i)
-			if f.PkgPath != "" || strings.HasPrefix(f.Name, "XXX_") || paramStateFields[f.Name] {
+			if f.PkgPath != "" || strings.HasPrefix(f.Name, "XXX_") || paramStateFields[f.Name] || (paramModeFields[f.Name] && !drawModeFields) {
 				continue
 			}
 			collectLeaves(v.Field(i), path+"."+f.Name, depth+1, out)
